@@ -474,7 +474,7 @@ func Replay[T any](t *testing.T, subs map[string]func(c RawCase) Outcome) {
 		t.Fail()
 		return
 	}
-	fmt.Println("REPLAY-PASS")
+	fmt.Printf("REPLAY-PASS nontrivial=%v inconclusive=%v labels=%v\n", o.NonTrivial, o.Inconclusive, o.Labels)
 }
 
 // ReplaySub adapts a typed Exec to the Replay table.
